@@ -201,3 +201,33 @@ contract('mapproxy.seed.cleanup:cleanup', props=['C12'],
                       'getattr': {'pure': True}, 'simple_cleanup': {}, 'cache_cleanup': {}, 'tilewalker_cleanup': {}, 'cleanup': {}},
          opaque=['simple_cleanup', 'cache_cleanup', 'tilewalker_cleanup'],
          loops={0: dict(inv=[], types={}, body_trace=[_strategy_choice])})
+
+
+# ---- resumed directory clean-up: which level directories may be skipped (BOUNDED: split/zip_longest/string order) ----------------------
+_SKIP_CASES = {}
+
+
+def _gen_can_skip(gen, rng):
+    """old_dir / current_dir as simple_cleanup produces them: the level directories (level_location of the real layouts) of two
+    levels of one cache; cache directories with numeric components and dimension sub-directories included"""
+    from mapproxy.cache.path import location_funcs
+    layout = rng.choice(['tc', 'mp', 'tms', 'arcgis'])
+    level_location = location_funcs(layout)[1]
+    cache_dir = rng.choice(['/var/cache/osm_EPSG3857', '/data/2/cache', '/srv/10/9/c', 'cache_data/l', '/c', '/tmp/x-1/EPSG4326'])
+    dims = rng.choice([None, None, {'time': '2020-01-01'}, {'elevation': '10', 'time': '9'}])
+    a, b = rng.randint(0, 24), rng.randint(0, 24)
+    old, cur = level_location(a, cache_dir, dims), level_location(b, cache_dir, dims)
+    _SKIP_CASES[(old, cur)] = (a, b)
+    return {'old_dir': old, 'current_dir': cur}
+
+
+def _skips_exactly_earlier_levels(args, result):
+    """a level directory is skipped on resume exactly if its level is below the level the interrupted run had reached
+    (levels are cleaned in ascending order): never a level that was not cleaned yet - e.g. '10' after an interruption in '2'"""
+    a, b = _SKIP_CASES[(args['old_dir'], args['current_dir'])]
+    return result == (b < a)
+
+
+contract('mapproxy.seed.cleanup:DirectoryCleanupProgress.can_skip', props=['C12'], verify=False,
+         types=dict(old_dir='str', current_dir='str'), returns='bool',
+         ensures=[_skips_exactly_earlier_levels], fuzz_gen=_gen_can_skip, bounded=dict(n=6000, seconds=8))
